@@ -259,3 +259,60 @@ CHECKS["C18"] = {
     "assumptions": MC_ASSUME,
     "deadline": {"quick": 600, "thorough": 3000},
 }
+
+
+# ---- C19: one translation unit per documented configuration -----------------------------------------------------------
+def _c19():
+    builds, runs = [], []
+    order_names = {0: "morton", 1: "morton-periodic", 2: "hilbert"}
+    exec_names = {0: "sequential", 1: "openmp", 2: "sequential-tsm", 3: "openmp-tsm"}
+    for dim in (1, 2, 3, 4):
+        for real in ("float", "double"):
+            for order in (0, 1, 2):
+                if order == 2 and dim != 3:
+                    continue
+                for ex in (0, 1, 2, 3):
+                    name = "cfg_d%d_%s_%s_%s" % (dim, real, order_names[order], exec_names[ex])
+                    flags = ["-O0", "-fno-access-control", "-DVF_DIM=%d" % dim, "-DVF_REAL=%s" % real, "-DVF_ORDER=%d" % order, "-DVF_EXEC=%d" % ex]
+                    if ex in (1, 3):
+                        flags.append("-fopenmp")
+                    builds.append({"name": name, "sources": ["drivers/config_tu.cpp"], "flags": flags, "libs": ["-fopenmp"] if ex in (1, 3) else [],
+                                   "build_failure_key": "build:" + name, "case": "configuration " + name})
+                    runs.append({"driver": name, "args": ["--mode", "C19"], "slices": 1, "tag": "r", "crash_key": "crash:" + name})
+    for real in ("float", "double"):      # data type different from the coordinate type, extra data values
+        for ex in (0, 2):
+            name = "cfg_d3_%s_otherdata_%s" % (real, exec_names[ex])
+            builds.append({"name": name, "sources": ["drivers/config_tu.cpp"],
+                           "flags": ["-O0", "-fno-access-control", "-DVF_DIM=3", "-DVF_REAL=%s" % real, "-DVF_ORDER=0", "-DVF_EXEC=%d" % ex, "-DVF_DATA_OTHER"],
+                           "build_failure_key": "build:" + name, "case": "configuration " + name})
+            runs.append({"driver": name, "args": ["--mode", "C19"], "slices": 1, "tag": "r", "crash_key": "crash:" + name})
+    builds.append({"name": "cfg_hilbert_only", "sources": ["drivers/config_hilbert_only.cpp"], "flags": ["-O0"],
+                   "build_failure_key": "build:hilbert-only-unit", "case": "unit including only the Hilbert ordering"})
+    runs.append({"driver": "cfg_hilbert_only", "args": [], "slices": 1, "tag": "r", "crash_key": "crash:hilbert-only-unit"})
+    builds.append({"name": "cfg_norhs", "sources": ["drivers/config_norhs.cpp"], "flags": ["-O0"],
+                   "build_failure_key": "build:zero-result-values-unit", "case": "zero result values, data type != coordinate type"})
+    runs.append({"driver": "cfg_norhs", "args": [], "slices": 1, "tag": "r", "crash_key": "crash:zero-result-values-unit"})
+    builds.append({"name": "cfg_selecter",
+                   "objects": [{"source": "drivers/config_selecter.cpp", "flags": ["-O0", "-fopenmp", "-fno-access-control"]}, SCHED_OBJ],
+                   "link": ["-ldl"], "includes_first": ["harness/mock"],
+                   "build_failure_key": "build:selecter-with-openmp-specx-starpu", "case": "tbfalgorithmselecter.hpp with TBF_USE_OPENMP, TBF_USE_SPECX, TBF_USE_STARPU"})
+    runs.append({"driver": "cfg_selecter", "args": ["--mode", "C19"], "slices": 1, "tag": "r", "crash_key": "crash:selecter-unit"})
+    return builds, runs
+
+
+_C19B, _C19R = _c19()
+CHECKS["C19"] = {
+    "builds": _C19B,
+    "runs": _C19R,
+    "level": "exploration",
+    "replayable": False,
+    "rule": "the finite cross product dimension {1,2,3,4} x coordinate type {float,double} x ordering {Morton, periodic Morton, Hilbert(3-D)} x "
+            "executor {sequential, OpenMP (real libgomp, 3 threads), sequential target/source, OpenMP target/source}, one translation unit each "
+            "(%d units), plus units for a data type different from the coordinate type with extra data values, zero result values, the "
+            "Hilbert ordering alone, and tbfalgorithmselecter.hpp with OpenMP+Specx+StarPU all enabled (mock runtime headers). A unit that "
+            "does not compile is a violation (key build:<unit>, compiler diagnostics in the replay file); a unit that compiles runs the "
+            "exactly-once, construction and rebuild oracles on heights 1..4 x 3 leaf sets x {automatic, explicit} block size x {without, "
+            "with move+rebuild}. evaluations = oracle runs; distinct by construction." % len(_C19B),
+    "assumptions": COMMON_ASSUME + ["g++ 12 is the only compiler front end used to decide 'compiles'", "Specx/StarPU only through the mock headers"],
+    "deadline": {"quick": 600, "thorough": 1200},
+}
